@@ -16,16 +16,19 @@ package zklog
 //@   ensures result != nil && shaped(result)
 
 //@ func (*Proof).IsValid
+//@   use bits
 //@   nopanic[C05]
 //@   inline
 //@   requires (p != nil ==> shaped(p))
 
 //@ func (*Proof).Verify
+//@   use bits
 //@   nopanic[C05]
 //@   modifies hstate(hash)
 //@   requires hash != nil && hash.h != nil && public.H != nil && public.X != nil && public.Y != nil && (p != nil ==> shaped(p))
 
 //@ func challenge
+//@   use bits
 //@   nopanic[C05]
 //@   inline
 //@   requires hash != nil && hash.h != nil && group != nil && public.H != nil && public.X != nil && public.Y != nil && commitment != nil
